@@ -343,13 +343,52 @@ impl Property for C19 {
         vec!["payloads are far below rust-bitcoin's 4 MB allocation guard".into()]
     }
     fn required_classes(&self, _tier: Tier) -> Vec<&'static str> {
-        vec!["accepted_valid", "rejected_malformed", "refused_api_disabled", "refused_wrong_network", "valid_plus_trailing_bytes", "zero_input_tx", "segwit_tx", "mutated_still_valid"]
+        vec!["accepted_valid", "rejected_malformed", "refused_api_disabled", "refused_wrong_network", "valid_plus_trailing_bytes", "zero_input_tx", "segwit_tx", "mutated_still_valid", "canister_not_synced"]
     }
     fn run(&self, case: &Case19) -> Outcome {
         let mut out = Outcome::default();
         let mut sc = SutConfig::new(case.net, 2);
         sc.api_access = if case.api_enabled { Flag::Enabled } else { Flag::Disabled };
+        // The sync gate is on in every other case; on regtest (the only network whose headers
+        // can be mined here) every fourth case additionally puts the canister in the not-synced
+        // state (three announced headers above the tip): the statement makes acceptance depend
+        // on the access flag, the network and the payload only.
+        if case.tx.seed % 2 == 0 {
+            sc.sync_gate = Flag::Enabled;
+        }
         sut::reset(&sc);
+        if case.net == Net::Regtest && case.tx.seed % 4 == 0 {
+            thread_local! {
+                static AHEAD: Vec<ic_btc_canister::types::BlockHeaderBlob> = {
+                    let net = Net::Regtest;
+                    let g = crate::chain::genesis(net);
+                    let mut prev = g.header;
+                    let mut v = vec![];
+                    for k in 0..3u32 {
+                        let cb = crate::chain::coinbase_tx(k + 1, 990_000 + k as u64, vec![crate::chain::txout(1, bitcoin::ScriptBuf::new())]);
+                        let b = crate::chain::build_block(net, prev.block_hash(), prev.time + 600, vec![cb], true);
+                        v.push(crate::hb::header_blob(&crate::chain::serialize_header(&b.header)));
+                        prev = b.header;
+                    }
+                    v
+                };
+            }
+            let stored = AHEAD.with(|blobs| {
+                sut::guarded(|| {
+                    can::with_state_mut(|s| {
+                        can::state::insert_next_block_headers(s, blobs);
+                        s.unstable_blocks.verif_bookkeeping().next_headers.len()
+                    })
+                })
+            });
+            match stored {
+                Ok(3) => out.class("canister_not_synced"),
+                other => {
+                    out.fail(format!("harness self-check: announcing three headers stored {:?}", other));
+                    return out;
+                }
+            }
+        }
         let tx = build_tx(&case.tx);
         let ser = bitcoin::consensus::serialize(&tx);
         if !is_exact_transaction(&ser) {
